@@ -760,6 +760,8 @@ def element_pools():
            {1: '192.88.3.0/24', 2: '192.89.3.0/24'}, {5: '|'.join('=%d' % (1000 + i) for i in range(100))},
            {6: '|'.join('=%d' % (70000 + i) for i in range(48))}]
     out['flowspec'] = [upd.flowspec_rule(r) for r in fs]
+    # the two-octet length form is allowed for short rules too (RFC 8955 4.1: "may" be used below 240): 0xf0 nn + body
+    out['flowspec'] += [bytes([0xf0, e[0]]) + e[1:] for e in out['flowspec'][:12] if e[0] < 0xf0]
     import struct
     singles = [c[0] for c, cv in community_pool('quick') if cv[0] == 'n=1']
     out['community'] = _distinct(struct.pack('!I', upd.community_value(c)) for c in singles)
